@@ -8,6 +8,9 @@ require (
 	golang.org/x/net v0.55.0
 )
 
-require golang.org/x/sys v0.45.0 // indirect
+require (
+	golang.org/x/sync v0.20.0 // indirect
+	golang.org/x/sys v0.45.0 // indirect
+)
 
 replace github.com/miekg/dns => /repo
